@@ -50,6 +50,30 @@ def _strategy(draw):
         return draw(_book_last())
     spec = draw(gen.portfolios_all())
     spec["split"] = draw(st.one_of(st.none(), st.none(), st.none(), st.sampled_from(SPLITS)))
+    T = spec["grid"]["T"]
+    r = draw(st.integers(0, 11))
+    if r == 0:
+        # the asset that is set up last has no step in the horizon (already contracted, starts later / ended before)
+        n0 = build.all_nodes(spec)[0]
+        late = draw(st.booleans())
+        spec["assets"].append({"type": "simple", "name": "zz_out", "nodes": [n0], "price": "p0", "min_cap": -1.0, "max_cap": 1.0,
+                               "extra_costs": 0.25, "wacc": 0.0, "start": T + 1 if late else -4, "end": T + 3 if late else -1})
+        spec["last_outside"] = True
+    elif r == 1:
+        # a structured asset whose link to its external node is not active in the horizon while assets at the internal
+        # node trade with each other (all its variables are internal then)
+        for a in spec["assets"]:
+            if a["type"] == "structured":
+                link = a["assets"][1]
+                link["start"], link["end"] = T + 1, T + 3
+                i0 = [n for n in link["nodes"] if n not in a["nodes"]]
+                if i0:
+                    a["assets"][0].update(min_cap=-2.0, max_cap=2.0, extra_costs=0.0, start=None, end=None)
+                    a["assets"].append({"type": "simple", "name": a["name"] + "_xq", "nodes": [i0[0]],
+                                        "price": sorted(spec["prices"])[-1], "min_cap": -1.0, "max_cap": 1.0, "extra_costs": 0.125,
+                                        "wacc": 0.0, "start": None, "end": None})
+                    spec["internal_only"] = True
+                break
     return spec
 
 
@@ -73,7 +97,8 @@ def check(spec):
     r = obs.Run(spec, split=split)
     cls = obs.classes_of(spec)
     out.label(*["class:" + c for c in set(cls)])
-    out.label("build:split" if split else "build:monolithic")
+    out.label("build:split" if split else "build:monolithic", "last_asset_outside" if spec.get("last_outside") else None,
+              "structured_internal_only" if spec.get("internal_only") else None)
     if is_err(r.op):
         return out.drop("setup_error:" + r.op.kind)
     res = r.optimize()
